@@ -320,6 +320,12 @@ func c14One(env *core.Env, res *core.Result, v *validation.Validator, caseIdx in
 	// 2. identities: indexes, hashes, names, slots pairwise distinct.
 	byIdent := map[string]int{}
 	byHash := map[string]int{}
+	// Job names of every admissible length (admission accepts up to 60 characters): identity must not depend on the name being short
+	jobName := "job"
+	if n := caseIdx % 7; n > 0 {
+		jobName = strings.Repeat("a-long-job-name-", 4)[:[]int{10, 40, 54, 55, 57, 60}[n-1]]
+	}
+	// task names must be distinct across retries of one index too
 	byName := map[string]int{}
 	refAgree := true
 	for i, idx := range got {
@@ -345,7 +351,7 @@ func c14One(env *core.Env, res *core.Result, v *validation.Validator, caseIdx in
 				return
 			}
 		}
-		name, err := jobutil.GenerateTaskName("job", tasks.TaskIndex{Retry: 0, Parallel: idx})
+		name, err := jobutil.GenerateTaskName(jobName, tasks.TaskIndex{Retry: 0, Parallel: idx})
 		if err != nil {
 			viol("name-error", "GenerateTaskName(%s): %v", idxString(idx), err)
 			return
@@ -368,6 +374,13 @@ func c14One(env *core.Env, res *core.Result, v *validation.Validator, caseIdx in
 			return
 		}
 		byName[name] = i
+		if n1, err := jobutil.GenerateTaskName(jobName, tasks.TaskIndex{Retry: 1, Parallel: idx}); err == nil {
+			if j, ok := byName[n1]; ok {
+				viol("name-collision", "retry 1 of index %d shares task name %s with index/attempt %d", i, n1, j)
+				return
+			}
+			byName[n1] = -1 - i
+		}
 	}
 
 	// 3. status slots: one per index, own hash, counts only own tasks.
